@@ -7,6 +7,7 @@ import (
 	"flag"
 	"fmt"
 	"io"
+	"math"
 	"math/rand"
 	"os"
 	"os/exec"
@@ -15,6 +16,7 @@ import (
 	"sync"
 	"sync/atomic"
 	"time"
+	"unicode/utf8"
 
 	regexp2 "github.com/dlclark/regexp2/v2"
 	"github.com/dlclark/regexp2/v2/compat"
@@ -246,11 +248,40 @@ func exercise(c c10Case, res *c10Result, report func(kind, call, detail string))
 			s := s
 			timed("FindStringMatchStartingAt", func() { _, err := re.FindStringMatchStartingAt(in, s); chk("FindStringMatchStartingAt", err, true) })
 		}
-		for _, s := range []int{0, len(runes) / 2, len(runes)} {
+		for _, s := range []int{-5, 0, len(runes) / 2, len(runes), len(runes) + 1, 1 << 30} {
 			s := s
-			timed("FindRunesMatchStartingAt", func() { _, err := re.FindRunesMatchStartingAt(runes, s); chk("FindRunesMatchStartingAt", err, true) })
+			timed("FindRunesMatchStartingAt", func() {
+				m, err := re.FindRunesMatchStartingAt(runes, s)
+				chk("FindRunesMatchStartingAt", err, true)
+				if m != nil {
+					_ = m.String()
+				}
+			})
 		}
-		for _, n := range []int{-1, 0, 1, 3, -7} {
+		// a rune slice is not necessarily the decoding of a string: values without a UTF-8 encoding
+		if len(runes) > 0 && rng.Intn(3) == 0 {
+			hostile := append([]rune(nil), runes...)
+			for k := 0; k < 1+rng.Intn(2); k++ {
+				hostile[rng.Intn(len(hostile))] = []rune{-1, -128, 0xD800, 0xDFFF, 0x110000, 0x7FFFFFFF, -0x80000000}[rng.Intn(7)]
+			}
+			res.Counters["rune_slices_with_unencodable_values"]++
+			timed("MatchRunes", func() { _, err := re.MatchRunes(hostile); chk("MatchRunes(unencodable)", err, false) })
+			timed("FindRunesMatch", func() {
+				m, err := re.FindRunesMatch(hostile)
+				for k := 0; m != nil && err == nil && k < len(hostile)+3; k++ {
+					_ = m.String()
+					for _, g := range m.Groups() {
+						for _, cp := range g.Captures {
+							cp.ByteRange()
+						}
+					}
+					m, err = re.FindNextMatch(m)
+				}
+				chk("FindRunesMatch(unencodable)", err, false)
+			})
+			timed("FindAllRunesIndex", func() { _, err := re.FindAllRunesIndex(hostile, -1); chk("FindAllRunesIndex(unencodable)", err, false) })
+		}
+		for _, n := range []int{-1, 0, 1, 3, -7, math.MaxInt, 1 << 40} {
 			n := n
 			timed("FindAllStringIndex", func() { _, err := re.FindAllStringIndex(in, n); chk("FindAllStringIndex", err, false) })
 			timed("FindAllRunesIndex", func() { _, err := re.FindAllRunesIndex(runes, n); chk("FindAllRunesIndex", err, false) })
@@ -312,7 +343,11 @@ func exercise(c c10Case, res *c10Result, report func(kind, call, detail string))
 				cre.FindStringSubmatch(in)
 				cre.FindSubmatch(b)
 				cre.FindSubmatchIndex(b)
-				for _, n := range []int{-1, 0, 2} {
+				// a reader that fails: the regexp package treats any read error as the end of the text
+				cre.MatchReader(&failingReader{s: in, after: len(in) / 2})
+				cre.FindReaderIndex(&failingReader{s: in, after: 1})
+				cre.FindReaderSubmatchIndex(&failingReader{s: in, after: 0})
+				for _, n := range []int{-1, 0, 2, math.MaxInt} {
 					cre.FindAll(b, n)
 					cre.FindAllIndex(b, n)
 					cre.FindAllString(in, n)
@@ -324,6 +359,22 @@ func exercise(c c10Case, res *c10Result, report func(kind, call, detail string))
 			})
 		})
 	}
+}
+
+// failingReader yields the runes of s and then an error that is not io.EOF.
+type failingReader struct {
+	s     string
+	after int // bytes served before the error
+	pos   int
+}
+
+func (f *failingReader) ReadRune() (rune, int, error) {
+	if f.pos >= f.after || f.pos >= len(f.s) {
+		return 0, 0, errors.New("read failed")
+	}
+	r, n := utf8.DecodeRuneInString(f.s[f.pos:])
+	f.pos += n
+	return r, n, nil
 }
 
 // c10WorkerMain is the child process.
@@ -417,7 +468,101 @@ func c10CaseMain(file string) int {
 	return 0
 }
 
+// c10Regressions are the calls that used to panic (or kill the process), kept as
+// deterministic probes next to the generated workload. Each returns "" when the
+// call now behaves.
+var c10Regressions = map[string]func() string{
+	"negative-rune-in-bm-scan": func() string {
+		re := regexp2.MustCompile(`__\A`, regexp2.None)
+		_, err := re.FindRunesMatch([]rune{-1, '_', '_', '_', '_', '!', '_', '\r'})
+		return errText(err)
+	},
+	"find-all-huge-n": func() string {
+		re := regexp2.MustCompile(`a`, regexp2.None)
+		if r, err := re.FindAllStringIndex("banana", math.MaxInt); err != nil || len(r) != 3 {
+			return fmt.Sprintf("FindAllStringIndex(\"banana\", MaxInt) = %v, %v", r, err)
+		}
+		if r, err := re.FindAllRunesIndex([]rune("banana"), 1<<40); err != nil || len(r) != 3 {
+			return fmt.Sprintf("FindAllRunesIndex(\"banana\", 1<<40) = %v, %v", r, err)
+		}
+		return ""
+	},
+	"compat-reader-error": func() string {
+		c := compat.Wrap(regexp2.MustCompile(`a+`, regexp2.RE2))
+		if !c.MatchReader(&failingReader{s: "aab", after: 2}) {
+			return "MatchReader on a reader that fails after \"aa\" = false, the regexp package says true"
+		}
+		if loc := c.FindReaderIndex(&failingReader{s: "baab", after: 3}); len(loc) != 2 || loc[0] != 1 || loc[1] != 3 {
+			return fmt.Sprintf("FindReaderIndex on a reader that fails after \"baa\" = %v, the regexp package says [1 3]", loc)
+		}
+		return ""
+	},
+	"runes-start-beyond-end": func() string {
+		for _, p := range []string{`\b`, `\B`, `(?m)^`, `a*`, `$`} {
+			for _, o := range []regexp2.RegexOptions{regexp2.None, regexp2.RightToLeft} {
+				re := regexp2.MustCompile(p, o)
+				m, err := re.FindRunesMatchStartingAt([]rune("ab"), 3)
+				if err == nil {
+					if m != nil {
+						_ = m.String()
+					}
+					return fmt.Sprintf("FindRunesMatchStartingAt(%q, \"ab\", 3) returned no argument error", p)
+				}
+			}
+		}
+		return ""
+	},
+	"rtl-balancing-negative-length": func() string {
+		re := regexp2.MustCompile(`(?<A>(?<A-A>x){2}n)(?<A>A)`, regexp2.RightToLeft)
+		m, err := re.FindStringMatch("xxnA")
+		if err != nil || m == nil {
+			return fmt.Sprintf("no match: %v", err)
+		}
+		if got := mon.ObsAll(m); got != "0:(0,4);A:(1,1)(0,3);" {
+			return "captures " + got + ", want 0:(0,4);A:(1,1)(0,3);"
+		}
+		return ""
+	},
+	"enumerated-property-without-value": func() string {
+		_, err := regexp2.Compile(`\p{wb}`, regexp2.None)
+		if err != nil && !isParseErr(err) {
+			return err.Error()
+		}
+		return ""
+	},
+	"rtl-split": func() string {
+		re := regexp2.MustCompile(`,`, regexp2.RightToLeft)
+		r, err := re.Split("a,b,c", -1)
+		if err != nil || len(r) != 3 {
+			return fmt.Sprintf("Split = %q, %v", r, err)
+		}
+		return ""
+	},
+}
+
+func errText(err error) string {
+	if err == nil || allowedMatchErr(err) {
+		return ""
+	}
+	return err.Error()
+}
+
+func runRegression(name string) string {
+	f := c10Regressions[name]
+	if f == nil {
+		return ""
+	}
+	var out string
+	if p, st := core.Guard(func() { out = f() }); p != nil {
+		return fmt.Sprintf("panic: %v\n%s", p, st)
+	}
+	return out
+}
+
 func replayC10(w core.Witness) string {
+	if name, ok := w.Args["regression"].(string); ok {
+		return runRegression(name)
+	}
 	raw, _ := json.Marshal(w.Args["case"])
 	var c c10Case
 	if json.Unmarshal(raw, &c) != nil || c.Pattern == "" && w.Pattern == "" {
@@ -444,6 +589,16 @@ func replayC10(w core.Witness) string {
 
 func runC10(r *core.Run) int {
 	r.ReplayKnown(replayC10)
+	{
+		l := r.Main()
+		for name := range c10Regressions {
+			l.Count("regression_probes", 1)
+			if d := runRegression(name); d != "" {
+				l.Violate(core.Violation{Kind: "regression-probe-" + name, Detail: d, Witness: core.Witness{Args: map[string]any{"regression": name}}})
+			}
+		}
+		l.Done()
+	}
 	total := r.Pick(14000, 200000)
 	nWorkers := r.Workers
 	self, _ := os.Executable()
